@@ -58,6 +58,18 @@ HISTORY = {
     "C12-4": ("missed (round 2)", "C12 sql-bracket/statement-api (multi-statement SQL must go through execute_batch)"),
     "C16-3": ("caught by a C10 floor only (round 2)", "targetless ON CONFLICT parsed; upsert conflict target must be the primary key (C10 upsert-complete, C08 routing-index, C16 existing-group-untouched)"),
     "C16-4": ("caught (round 2)", ""),
+    "C02-3": ("missed (round 2)", "C02 message-epoch-provenance/<record>.<field>-rewritten (stored message records are updated in place only in their state)"),
+    "C02-4": ("caught (round 2)", ""),
+    "C03-3": ("missed (round 2)", "C03 remove-every-leaf/walk-exhausted (no early break out of the member walk)"),
+    "C04-3": ("caught (round 2)", ""),
+    "C06-3": ("caught (round 2)", ""),
+    "C08-3": ("missed (round 2)", "C08 sync-after-merge/no-stale-overwrite (a record saved after the sync was re-read after it)"),
+    "C10-3": ("missed (round 2)", "C10 pagination/memory/<method>/filter-before-page"),
+    "C18-3": ("caught by an anchor floor only (round 2)", "C18/C10 memory-sort understands sort_by_key / Reverse key closures and reports the missing tie-break key"),
+    "C11-3": ("missed (round 2) — NOT caught", "none: the change swaps `SELECT DISTINCT .. ORDER BY created_at` for `GROUP BY snapshot_name .. ORDER BY created_at`; both are ordered by the same key, the difference is the order SQLite happens to produce among rows with equal created_at (seconds), which SQL leaves unspecified — a runtime matter no sound structural rule separates. Honest miss"),
+    "C20-3": ("missed (round 2)", "C09 sql-columns / C20 ttl-prune-at-build: surviving snapshots are written back verbatim (created_at as read)"),
+    "C13-3": ("missed (round 2)", "C13 permissions/sidecars/named-after-file (Path::file_name, not file_stem)"),
+    "C14-3": ("caught (round 2)", ""),
     "C19-2": ("caught by C09/C12 only", "C19 one-critical-section: only the group-existence pre-check is exempt on SQLite"),
 }
 rows = ["| id | change (needs) | first | now caught by | strengthened |", "|----|----------------|-------|---------------|--------------|"]
